@@ -706,4 +706,207 @@ theorem hs_ref_inplace_spec (lim : Nat) (t : TD α) (h : t.Inv) (op : MOp α) (h
   | sortRow side row => exact hs_ref_sortRow lim t h side row (hrow side row rfl) g' hg
   | sortCol side col => exact hs_ref_sortCol lim t h side col (hcol side col rfl) g' hg
 
+/-! ### the plain model's acceptance (`MOp.gok`) against the specification -/
+
+theorem hs_gok_false_gstepM (g : List (List α)) (op : MOp α) (hk : op.gok g = false) : gstepM g op = some g := by
+  cases op with
+  | set c r x =>
+    simp only [MOp.gok, decide_eq_false_iff_not] at hk
+    simp only [gstepM, if_neg hk]
+  | setInRow r c x =>
+    simp only [MOp.gok, decide_eq_false_iff_not] at hk
+    simp only [gstepM, if_neg hk]
+  | fill x => cases hk
+  | flipRows => cases hk
+  | flipCols => cases hk
+  | swap c1 r1 c2 r2 =>
+    simp only [MOp.gok, decide_eq_false_iff_not] at hk
+    simp only [gstepM, if_neg hk]
+  | swapRows r1 r2 =>
+    simp only [MOp.gok, decide_eq_false_iff_not] at hk
+    simp only [gstepM, if_neg hk]
+  | swapCols c1 c2 =>
+    simp only [MOp.gok, decide_eq_false_iff_not] at hk
+    simp only [gstepM, if_neg hk]
+  | copyFromSlice src =>
+    simp only [MOp.gok, decide_eq_false_iff_not] at hk
+    simp only [gstepM, if_neg hk]
+  | copyFromTooDee src =>
+    simp only [MOp.gok] at hk
+    simp only [gstepM]
+    cases hsg : src.grid? with
+    | none => rfl
+    | some sg =>
+      rw [hsg] at hk
+      simp only [decide_eq_false_iff_not] at hk
+      simp only [if_neg hk]
+  | copyWithin tl br dest =>
+    simp only [MOp.gok, decide_eq_false_iff_not] at hk
+    simp only [gstepM, if_neg hk]
+  | translate mc mr =>
+    simp only [MOp.gok, decide_eq_false_iff_not] at hk
+    simp only [gstepM, if_neg hk]
+  | sortRow side row =>
+    simp only [MOp.gok] at hk
+    simp only [gstepM]
+    by_cases hr : row < g.length
+    · rw [if_pos hr]
+      rw [decide_eq_true hr, Bool.true_and] at hk
+      cases hs : side (g[row]?.getD []) with
+      | ok p => rw [hs] at hk; cases hk
+      | error er => rfl
+    · rw [if_neg hr]
+  | sortCol side col =>
+    simp only [MOp.gok] at hk
+    simp only [gstepM]
+    by_cases hr : col < gcols g
+    · rw [if_pos hr]
+      rw [decide_eq_true hr, Bool.true_and] at hk
+      cases hs : side (g.filterMap (·[col]?)) with
+      | ok p => rw [hs] at hk; cases hk
+      | error er => rfl
+    · rw [if_neg hr]
+
+/-- a call the plain model does not accept is rejected by the specification (or caller code panics inside its sort) -/
+theorem hs_gok_false_spec (lim : Nat) (t : TD α) (h : t.Inv) (op : MOp α) (hs : op.Sane) (hk : op.gok t.grid = false) :
+    op.spec t.asView lim t.data = .error .panic := by
+  cases op with
+  | set c r x =>
+    simp only [MOp.gok, decide_eq_false_iff_not, hs_headC t h, h.grid_length] at hk
+    simp only [MOp.spec, if_neg (show ¬ (c < t.asView.numCols ∧ r < t.asView.numRows) from hk)]
+    rfl
+  | setInRow r c x =>
+    simp only [MOp.gok, decide_eq_false_iff_not, hs_headC t h, h.grid_length] at hk
+    simp only [MOp.spec, if_neg (show ¬ (c < t.asView.numCols ∧ r < t.asView.numRows) from hk)]
+    rfl
+  | fill x => cases hk
+  | flipRows => cases hk
+  | flipCols => cases hk
+  | swap c1 r1 c2 r2 =>
+    simp only [MOp.gok, decide_eq_false_iff_not, hs_headC t h, h.grid_length] at hk
+    simp only [MOp.spec, if_neg (show ¬ (c1 < t.asView.numCols ∧ c2 < t.asView.numCols ∧ r1 < t.asView.numRows ∧ r2 < t.asView.numRows) from hk)]
+    rfl
+  | swapRows r1 r2 =>
+    simp only [MOp.gok, decide_eq_false_iff_not, h.grid_length] at hk
+    simp only [MOp.spec, if_neg (show ¬ (r1 < t.asView.numRows ∧ r2 < t.asView.numRows) from hk)]
+    rfl
+  | swapCols c1 c2 =>
+    simp only [MOp.gok, decide_eq_false_iff_not, hs_headC t h] at hk
+    simp only [MOp.spec, if_neg (show ¬ (c1 < t.asView.numCols ∧ c2 < t.asView.numCols) from hk)]
+    rfl
+  | copyFromSlice src =>
+    simp only [MOp.gok, decide_eq_false_iff_not, hs_headC t h, h.grid_length] at hk
+    simp only [MOp.spec, if_neg (show ¬ (t.asView.numCols * t.asView.numRows = src.length) from hk)]
+    rfl
+  | copyFromTooDee src =>
+    simp only [MOp.gok, hs_headC t h, h.grid_length] at hk
+    simp only [MOp.spec]
+    cases hsg : src.grid? with
+    | none => rfl
+    | some sg =>
+      rw [hsg] at hk
+      simp only [decide_eq_false_iff_not] at hk
+      simp only [if_neg (show ¬ (sg.length = t.asView.numRows ∧ gcols sg = t.asView.numCols) from hk)]
+      rfl
+  | copyWithin tl br dest =>
+    simp only [MOp.gok, decide_eq_false_iff_not, hs_headC t h, h.grid_length] at hk
+    simp only [MOp.spec, if_neg (show ¬ rectsFit t.asView.numCols t.asView.numRows tl br dest from hk)]
+    rfl
+  | translate mc mr =>
+    simp only [MOp.gok, decide_eq_false_iff_not, hs_headC t h, h.grid_length] at hk
+    simp only [MOp.spec, if_neg (show ¬ (mc ≤ t.asView.numCols ∧ mr ≤ t.asView.numRows) from hk)]
+    rfl
+  | sortRow side row =>
+    simp only [MOp.gok, h.grid_length] at hk
+    simp only [MOp.spec]
+    by_cases hr : row < t.numRows ∧ t.numCols ≤ lim
+    · rw [if_pos (show row < t.asView.numRows ∧ t.asView.numCols ≤ lim from hr)]
+      rw [decide_eq_true hr.1, Bool.true_and, hs_row_key t h row hr.1] at hk
+      rcases hs (readWin t.data (t.asView.rowWin row)) with hside | ⟨p, hside, _⟩
+      · rw [hside]; rfl
+      · rw [hside] at hk; cases hk
+    · rw [if_neg (show ¬ (row < t.asView.numRows ∧ t.asView.numCols ≤ lim) from hr)]
+      rfl
+  | sortCol side col =>
+    simp only [MOp.gok, hs_headC t h] at hk
+    simp only [MOp.spec]
+    by_cases hc : col < t.numCols ∧ t.numRows ≤ lim
+    · rw [if_pos (show col < t.asView.numCols ∧ t.asView.numRows ≤ lim from hc)]
+      rw [decide_eq_true hc.1, Bool.true_and, hs_col_key t h col hc.1] at hk
+      rcases hs ((List.range t.asView.numRows).filterMap fun r => t.data[t.asView.pos col r]?) with hside | ⟨p, hside, _⟩
+      · rw [hside]; rfl
+      · rw [hside] at hk; cases hk
+    · rw [if_neg (show ¬ (col < t.asView.numCols ∧ t.asView.numRows ≤ lim) from hc)]
+      rfl
+
+/-- a call the plain model accepts succeeds (a sorted line must fit the side table) -/
+theorem hs_gok_true_spec (lim : Nat) (t : TD α) (h : t.Inv) (op : MOp α)
+    (hrow : ∀ side row, op = .sortRow side row → t.numCols ≤ lim)
+    (hcol : ∀ side col, op = .sortCol side col → t.numRows ≤ lim) (hk : op.gok t.grid = true) :
+    ∃ d, op.spec t.asView lim t.data = .ok d := by
+  cases op with
+  | set c r x =>
+    simp only [MOp.gok, decide_eq_true_eq, hs_headC t h, h.grid_length] at hk
+    simp only [MOp.spec, if_pos (show c < t.asView.numCols ∧ r < t.asView.numRows from hk)]
+    exact ⟨_, rfl⟩
+  | setInRow r c x =>
+    simp only [MOp.gok, decide_eq_true_eq, hs_headC t h, h.grid_length] at hk
+    simp only [MOp.spec, if_pos (show c < t.asView.numCols ∧ r < t.asView.numRows from hk)]
+    exact ⟨_, rfl⟩
+  | fill x => exact ⟨_, rfl⟩
+  | flipRows => exact ⟨_, rfl⟩
+  | flipCols => exact ⟨_, rfl⟩
+  | swap c1 r1 c2 r2 =>
+    simp only [MOp.gok, decide_eq_true_eq, hs_headC t h, h.grid_length] at hk
+    simp only [MOp.spec, if_pos (show c1 < t.asView.numCols ∧ c2 < t.asView.numCols ∧ r1 < t.asView.numRows ∧ r2 < t.asView.numRows from hk)]
+    exact ⟨_, rfl⟩
+  | swapRows r1 r2 =>
+    simp only [MOp.gok, decide_eq_true_eq, h.grid_length] at hk
+    simp only [MOp.spec, if_pos (show r1 < t.asView.numRows ∧ r2 < t.asView.numRows from hk)]
+    exact ⟨_, rfl⟩
+  | swapCols c1 c2 =>
+    simp only [MOp.gok, decide_eq_true_eq, hs_headC t h] at hk
+    simp only [MOp.spec, if_pos (show c1 < t.asView.numCols ∧ c2 < t.asView.numCols from hk)]
+    exact ⟨_, rfl⟩
+  | copyFromSlice src =>
+    simp only [MOp.gok, decide_eq_true_eq, hs_headC t h, h.grid_length] at hk
+    simp only [MOp.spec, if_pos (show t.asView.numCols * t.asView.numRows = src.length from hk)]
+    exact ⟨_, rfl⟩
+  | copyFromTooDee src =>
+    simp only [MOp.gok, hs_headC t h, h.grid_length] at hk
+    simp only [MOp.spec]
+    cases hsg : src.grid? with
+    | none => rw [hsg] at hk; cases hk
+    | some sg =>
+      rw [hsg] at hk
+      simp only [decide_eq_true_eq] at hk
+      simp only [if_pos (show sg.length = t.asView.numRows ∧ gcols sg = t.asView.numCols from hk)]
+      exact ⟨_, rfl⟩
+  | copyWithin tl br dest =>
+    simp only [MOp.gok, decide_eq_true_eq, hs_headC t h, h.grid_length] at hk
+    simp only [MOp.spec, if_pos (show rectsFit t.asView.numCols t.asView.numRows tl br dest from hk)]
+    exact ⟨_, rfl⟩
+  | translate mc mr =>
+    simp only [MOp.gok, decide_eq_true_eq, hs_headC t h, h.grid_length] at hk
+    simp only [MOp.spec, if_pos (show mc ≤ t.asView.numCols ∧ mr ≤ t.asView.numRows from hk)]
+    exact ⟨_, rfl⟩
+  | sortRow side row =>
+    simp only [MOp.gok, h.grid_length, Bool.and_eq_true, decide_eq_true_eq] at hk
+    obtain ⟨hr, hk⟩ := hk
+    rw [hs_row_key t h row hr] at hk
+    simp only [MOp.spec]
+    rw [if_pos (show row < t.asView.numRows ∧ t.asView.numCols ≤ lim from ⟨hr, hrow side row rfl⟩)]
+    cases hside : side (readWin t.data (t.asView.rowWin row)) with
+    | ok p => exact ⟨_, rfl⟩
+    | error er => rw [hside] at hk; cases hk
+  | sortCol side col =>
+    simp only [MOp.gok, hs_headC t h, Bool.and_eq_true, decide_eq_true_eq] at hk
+    obtain ⟨hc, hk⟩ := hk
+    rw [hs_col_key t h col hc] at hk
+    simp only [MOp.spec]
+    rw [if_pos (show col < t.asView.numCols ∧ t.asView.numRows ≤ lim from ⟨hc, hcol side col rfl⟩)]
+    cases hside : side ((List.range t.asView.numRows).filterMap fun r => t.data[t.asView.pos col r]?) with
+    | ok p => exact ⟨_, rfl⟩
+    | error er => rw [hside] at hk; cases hk
+
 end Toodee
